@@ -498,3 +498,51 @@ def c13_6(ctx: Ctx) -> RuleResult:
         i.rule = "C13.6"
     r.rule, r.title, r.floor = "C13.6", "user-domain differences: bound differences * scales, linear differences * row scaling, each under the test of the field it applies; results delegate their constraint information", 3
     return r
+
+
+@rule(P)
+def c13_7(ctx: Ctx) -> RuleResult:
+    """Shared with C11.2."""
+    from .c11 import c11_2
+
+    r = c11_2(ctx)
+    for i in r.instances:
+        i.rule = "C13.7"
+    r.rule, r.title = "C13.7", "linear differences reported in the user domain: the scaler's back-map of the differences undoes exactly the row normalisation and scaling its forward map applied"
+    return r
+
+
+@rule(P)
+def c13_8(ctx: Ctx) -> RuleResult:
+    """Sibling agreement: every FunctionResults the ensemble evaluator builds carries ConstraintInfo.create(config,
+    variables, constraints-or-None) - bound and linear differences depend on the variables only, so they are reported
+    for failed evaluations (functions is None) as well."""
+    from ..util import guard_leaves
+
+    res = RuleResult("C13.8", "COH", "every FunctionResults built by the ensemble evaluator carries constraint differences (also when the evaluation failed)")
+    X = ctx.X
+    sites = []
+    for f in ctx.repo.all_funcs():
+        if not f.module.name.startswith("ropt.ensemble_evaluator"):
+            continue
+        for c in calls_in(f):
+            if isinstance(c.func, ast.Name) and c.func.id == "FunctionResults" or isinstance(c.func, ast.Attribute) and c.func.attr == "FunctionResults":
+                sites.append((f, c))
+    if not sites:
+        raise AnalysisError("no FunctionResults construction found in the ensemble evaluator")
+    for f, c in sites:
+        kw = next((k.value for k in c.keywords if k.arg == "constraint_info"), None)
+        if kw is None:
+            res.add(f, c, "FunctionResults is given a constraint_info", False, "no constraint_info argument: no differences or violations are reported", construct=f"{f.name}: FunctionResults constraint_info")
+            continue
+        t = X.force_inline(X.value_at(f, kw), f)
+        leaves = list(guard_leaves(t, strip_wrappers=False))
+        bad = [(cs, l) for cs, l in leaves if not (l[0] == "call" and l[1][0] == "attr" and l[1][2] == "create")
+               and not (l[0] == "call" and l[1][0] == "global" and l[1][1].endswith("ConstraintInfo.create"))]
+        ok = not bad
+        res.add(f, c, "constraint_info is ConstraintInfo.create(...) on every path", ok,
+                "" if ok else f"under `{show(bad[0][0][0][0], 50) if bad[0][0] else 'some path'}` the result carries `{show(bad[0][1], 40)}` instead: a failed evaluation reports no bound / linear "
+                "differences although they depend only on the variables (its sibling site does report them)",
+                construct=f"{f.name}: FunctionResults constraint_info")
+    res.floor = 2
+    return res
